@@ -57,6 +57,30 @@ theorem keyEq_eq {v w : PVal} (hv : isNegZero v = false) (hw : isNegZero w = fal
     · simp [h]
     · rcases f64IsZero_cases ha with ha | ha <;> rcases f64IsZero_cases hb with hb | hb <;> simp_all
   · simp [h]
+  · simp [h]
+
+/-- `==` on two table keys that are not the two zeros of one float type is equality. -/
+theorem keyEq_eq_of_noClash {v w : PVal} (h : keyEq v w = true) (hc : zeroClash v w = false) : v = w := by
+  cases v <;> cases w <;> simp [keyEq] at h
+  · simp [h]
+  · simp [h]
+  · simp [h]
+  · simp [h]
+  · rename_i a b
+    simp [f32Eq] at h
+    simp [zeroClash] at hc
+    rcases h.2 with h | ⟨ha, hb⟩
+    · simp [h]
+    · simp [hc ha hb]
+  · rename_i a b
+    simp [f64Eq] at h
+    simp [zeroClash] at hc
+    rcases h.2 with h | ⟨ha, hb⟩
+    · simp [h]
+    · simp [hc ha hb]
+  · simp [h]
+  · simp [h]
+
 theorem KVE.key_spec (e : KVE) (s : String) :
     (e.key s).2.keys[(e.key s).1]? = some s ∧ e.keys <+: (e.key s).2.keys ∧
       (e.key s).2.vals = e.vals ∧ (e.key s).2.keys.length ≤ e.keys.length + 1 ∧
@@ -235,6 +259,167 @@ theorem encodeProperties_decode (e : KVE) (ps : List (String × PVal))
   intro e'' hle
   rw [h6 e'' hle [] hnd (by simp)]
   simp [expectProps]
+
+/-! #### the same with the weakest zero condition: no +0 / −0 clash within the layer -/
+
+/-- What a value needs for the table of a layer whose values are `vs`: it clashes with none of
+    them, and with nothing that clashes with none of them. -/
+def ZOK (vs : List PVal) (v : PVal) : Prop :=
+  (∀ u ∈ vs, zeroClash u v = false) ∧ ∀ w, (∀ u ∈ vs, zeroClash u w = false) → zeroClash v w = false
+
+theorem noZeroClash_iff (vs : List PVal) :
+    noZeroClash vs = true ↔ ∀ a ∈ vs, ∀ b ∈ vs, zeroClash a b = false := by
+  simp [noZeroClash, List.all_eq_true]
+
+theorem ZOK_mem {vs : List PVal} (hnc : noZeroClash vs = true) {v : PVal} (hv : v ∈ vs) : ZOK vs v :=
+  ⟨fun u hu => (noZeroClash_iff vs).mp hnc u hu v hv, fun _ hw => hw v hv⟩
+
+theorem ZOK_nil (vs : List PVal) : ZOK vs .nil :=
+  ⟨fun u _ => by cases u <;> rfl, fun _ _ => rfl⟩
+
+theorem jsonStep_specZ {v : PVal} (hw : pvalWF v = true) :
+    ∃ v' tv, jsonStep v = .ok v' ∧ (∀ u, zeroClash u v' = zeroClash u v) ∧
+      (∀ u, zeroClash v' u = zeroClash v u) ∧ encodeValue v' = .ok tv ∧ decodeTVal tv = widen v := by
+  cases v <;> simp [pvalWF] at hw <;>
+    exact ⟨_, _, rfl, fun u => by cases u <;> rfl, fun u => by cases u <;> rfl, rfl, rfl⟩
+
+theorem KVE.value_specZ (vs : List PVal) (e : KVE) (v : PVal) (hi : KVE.InvZ vs e) (hw : pvalWF v = true)
+    (hz : ZOK vs v) :
+    ∃ i e', e.value v = .ok (i, e') ∧ KVE.InvZ vs e' ∧ e'.keys = e.keys ∧ e.vals <+: e'.vals ∧
+      e'.vals.length ≤ e.vals.length + 1 ∧ i < e'.vals.length ∧
+      ∃ p, e'.vals[i]? = some p ∧ decodeTVal p.2 = widen v := by
+  obtain ⟨v', tv, h1, h2r, h2l, h3, h4⟩ := jsonStep_specZ hw
+  unfold KVE.value
+  rw [h1]
+  dsimp only
+  split
+  · rename_i i hfi
+    obtain ⟨h, hk, _⟩ := List.findIdx?_eq_some_iff_getElem.mp hfi
+    have hmem : e.vals[i] ∈ e.vals := List.getElem_mem h
+    obtain ⟨he, hnz⟩ := hi _ hmem
+    have hcl : zeroClash v' e.vals[i].1 = false := by rw [h2l]; exact hz.2 _ hnz
+    have heq : v' = e.vals[i].1 := keyEq_eq_of_noClash hk hcl
+    refine ⟨i, e, rfl, hi, rfl, List.prefix_refl _, Nat.le_succ _, h, e.vals[i], by simp [h], ?_⟩
+    rw [← heq, h3] at he
+    cases he
+    exact h4
+  · rw [h3]
+    dsimp only
+    refine ⟨_, _, rfl, ?_, rfl, by simp, by simp, by simp, (v', tv), by simp, h4⟩
+    intro p hp
+    simp at hp
+    rcases hp with hp | hp
+    · exact hi p hp
+    · subst hp; exact ⟨h3, fun u hu => by rw [h2r]; exact hz.1 u hu⟩
+
+theorem encodeTags_specZ (vs : List PVal) (ps : List (String × PVal))
+    (hps : ∀ k, pvalWF (lookupP ps k) = true ∧ ZOK vs (lookupP ps k)) :
+    ∀ (ks : List String) (e : KVE), KVE.InvZ vs e → e.keys.length + ks.length ≤ 2^32 →
+      e.vals.length + ks.length ≤ 2^32 →
+      ∃ tags e', encodeTags ps e ks = .ok (tags, e') ∧ KVE.InvZ vs e' ∧ KVE.le e e' ∧
+        e'.keys.length ≤ e.keys.length + ks.length ∧ e'.vals.length ≤ e.vals.length + ks.length ∧
+        ∀ e'', KVE.le e' e'' → ∀ m : List (String × DVal), ks.Nodup →
+          (∀ k ∈ ks, ∀ p ∈ m, p.1 ≠ k) →
+          decodeTags e''.keys e''.dvals tags m =
+            .ok (m ++ ks.map fun k => (k, widen (lookupP ps k))) := by
+  intro ks
+  induction ks with
+  | nil =>
+    intro e hi _ _
+    refine ⟨[], e, rfl, hi, KVE.le_refl e, by simp, by simp, ?_⟩
+    intro e'' _ m _ _
+    simp [decodeTags]
+  | cons k ks ih =>
+    intro e hi hk hl
+    obtain ⟨k1, k2, k3, k4, k5⟩ := KVE.key_spec e k
+    have hi1 : KVE.InvZ vs (e.key k).2 := by
+      unfold KVE.InvZ; rw [k3]; exact hi
+    obtain ⟨vi, e2, v1, v2, v3, v4, v5, v6, p, v7, v8⟩ :=
+      KVE.value_specZ vs (e.key k).2 (lookupP ps k) hi1 (hps k).1 (hps k).2
+    simp only [List.length_cons] at hk hl
+    rw [k3] at v4 v5
+    obtain ⟨ts, e3, r1, r2, r3, r4, r5, r6⟩ := ih e2 v2 (by rw [v3]; omega) (by omega)
+    refine ⟨BitVec.ofNat 32 (e.key k).1 :: BitVec.ofNat 32 vi :: ts, e3, ?_, r2, ?_, ?_, ?_, ?_⟩
+    · simp only [encodeTags, v1, r1]
+    · exact ⟨List.IsPrefix.trans k2 (v3 ▸ r3.1), List.IsPrefix.trans v4 r3.2⟩
+    · rw [v3] at r4; simp only [List.length_cons]; omega
+    · simp only [List.length_cons]; omega
+    · intro e'' hle m hnd hm
+      have hkn : (BitVec.ofNat 32 (e.key k).1).toNat = (e.key k).1 := by
+        rw [BitVec.toNat_ofNat]; apply Nat.mod_eq_of_lt; omega
+      have hvn : (BitVec.ofNat 32 vi).toNat = vi := by
+        rw [BitVec.toNat_ofNat]; apply Nat.mod_eq_of_lt; omega
+      have hkeys : e''.keys[(e.key k).1]? = some k :=
+        prefix_getElem? hle.1 (prefix_getElem? r3.1 (v3 ▸ k1))
+      have hvals : e''.dvals[vi]? = some (widen (lookupP ps k)) := by
+        have : e''.vals[vi]? = some p := prefix_getElem? hle.2 (prefix_getElem? r3.2 v7)
+        simp [KVE.dvals, List.getElem?_map, this, v8]
+      obtain ⟨hn1, hn2⟩ := List.nodup_cons.mp hnd
+      simp only [decodeTags, hkn, hvn, hkeys, hvals]
+      rw [mapSet_new m k _ (fun p hp => hm k (by simp) p hp)]
+      rw [r6 e'' hle _ hn2]
+      · simp
+      · intro k' hk' p hp
+        simp only [List.mem_append, List.mem_singleton] at hp
+        rcases hp with hp | hp
+        · exact hm k' (List.mem_cons_of_mem _ hk') p hp
+        · subst hp; intro h; have h : k = k' := h; exact hn1 (h ▸ hk')
+
+theorem lookupP_wfZ (vs : List PVal) (ps : List (String × PVal)) (hv : ∀ p ∈ ps, pvalWF p.2 = true)
+    (hsub : ∀ p ∈ ps, p.2 ∈ vs) (hnc : noZeroClash vs = true) (k : String) :
+    pvalWF (lookupP ps k) = true ∧ ZOK vs (lookupP ps k) := by
+  unfold lookupP
+  split
+  · rename_i p hp
+    have hm : p ∈ ps := List.mem_of_find?_eq_some hp
+    exact ⟨hv p hm, ZOK_mem hnc (hsub p hm)⟩
+  · exact ⟨by simp [pvalWF], ZOK_nil vs⟩
+
+theorem KVE.invZ_empty (vs : List PVal) : KVE.InvZ vs KVE.empty := by
+  intro p hp
+  simp [KVE.empty] at hp
+
+/-- `encodeProperties_decode` for a map whose values are among the values `vs` of a layer without a
+    +0 / −0 clash (negative zeros allowed). -/
+theorem encodeProperties_decodeZ (vs : List PVal) (e : KVE) (ps : List (String × PVal))
+    (hn : nodupKeys ps = true) (hv : ∀ p ∈ ps, pvalWF p.2 = true)
+    (hsub : ∀ p ∈ ps, p.2 ∈ vs) (hnc : noZeroClash vs = true)
+    (hi : KVE.InvZ vs e) (hk : e.keys.length + ps.length ≤ 2^32) (hl : e.vals.length + ps.length ≤ 2^32) :
+    ∃ tags e', encodeProperties e ps = .ok (tags, e') ∧ KVE.InvZ vs e' ∧ KVE.le e e' ∧
+      e'.keys.length ≤ e.keys.length + ps.length ∧ e'.vals.length ≤ e.vals.length + ps.length ∧
+      ∀ e'', KVE.le e' e'' → decodeTags e''.keys e''.dvals tags [] = .ok (expectProps ps) := by
+  have hperm := sortStrings_perm (ps.map (·.1))
+  have hlen : (sortStrings (ps.map (·.1))).length = ps.length := by
+    rw [hperm.length_eq, List.length_map]
+  have hnd : (sortStrings (ps.map (·.1))).Nodup :=
+    hperm.nodup_iff.mpr ((nodupStr_iff _).mp hn)
+  obtain ⟨tags, e', h1, h2, h3, h4, h5, h6⟩ :=
+    encodeTags_specZ vs ps (lookupP_wfZ vs ps hv hsub hnc) (sortStrings (ps.map (·.1))) e hi
+      (by rw [hlen]; exact hk) (by rw [hlen]; exact hl)
+  rw [hlen] at h4 h5
+  refine ⟨tags, e', h1, h2, h3, h4, h5, ?_⟩
+  intro e'' hle
+  rw [h6 e'' hle [] hnd (by simp)]
+  simp [expectProps]
+
+/-- A list without negative zeros has no zero clash. -/
+theorem noZeroClash_of_noNegZero (vs : List PVal) (h : ∀ v ∈ vs, isNegZero v = false) :
+    noZeroClash vs = true := by
+  rw [noZeroClash_iff]
+  intro a ha b hb
+  have h1 := h a ha
+  have h2 := h b hb
+  cases a <;> cases b <;> try rfl
+  · rename_i x y
+    simp only [isNegZero, beq_eq_false_iff_ne, ne_eq] at h1 h2
+    simp only [zeroClash, Bool.and_eq_false_imp, Bool.and_eq_true, bne_eq_false_iff_eq, and_imp]
+    intro hx hy
+    rcases f32IsZero_cases hx with hx | hx <;> rcases f32IsZero_cases hy with hy | hy <;> simp_all
+  · rename_i x y
+    simp only [isNegZero, beq_eq_false_iff_ne, ne_eq] at h1 h2
+    simp only [zeroClash, Bool.and_eq_false_imp, Bool.and_eq_true, bne_eq_false_iff_eq, and_imp]
+    intro hx hy
+    rcases f64IsZero_cases hx with hx | hx <;> rcases f64IsZero_cases hy with hy | hy <;> simp_all
 
 theorem insertStr_comm (a b : String) (l : List String) :
     insertStr a (insertStr b l) = insertStr b (insertStr a l) := by
